@@ -1,19 +1,22 @@
 ENTRY = {
     "C11": {
-        "pkg": ".", "hdir": "dastard", "harness": DASTARD_COMMON + ["zz_verif_c11_test.go"], "test": "TestVerifC11",
+        "pkg": ".", "hdir": "dastard", "harness": DASTARD_COMMON + ["zz_verif_c03_test.go", "zz_verif_c04_test.go", "zz_verif_c10_test.go", "zz_verif_c11_test.go", "zz_verif_c17_test.go"], "test": "TestVerifC11",
         "engines": ["vexp", "vhook"], "runtime_patch": True, "gomaxprocs": 1,
         "instrument": {"files": {
             "rpc_server.go": {},
             "data_source.go": {"only": ["Start", "CoreLoop", "Stop", "closeIfOpen", "RunDoneActivate", "RunDoneDeactivate", "RunDoneWait",
                                         "GetState", "SetStateStarting", "SetStateInactive", "ArchiveDataBlock", "archiveNewDataBlock"]},
+            "abaco.go": {"only": ["readerMainLoop", "getNextBlock", "distributeData", "Sample"]},
             "writing_state.go": {}}},
+        "textpatch": [{"file": "abaco.go", "old": "ticker := time.NewTicker(as.readPeriod)", "new": "ticker := vNewTicker(as.readPeriod)"}],
         "quick": T(16, 120), "thorough": T(16, 900),
         "rule": "part 1: one execution per (request type, argument class / I/O fault, source running or not) and per select alternative, through the real SourceControl "
                 "methods, runLaterIfActive, the real CoreLoop and the real handlers of a scripted two-channel source; part 2: one execution = one complete interleaving "
                 "(preemption-bounded) of requester thread(s), CoreLoop, producer and optional Stop caller; oracle: every call returns exactly once (no deadlock), error iff "
                 "the arguments are invalid / no source runs / the I/O step fails, the next blocks are still processed and further requests answered, no handler runs while a "
                 "block is being processed (exclusion monitor), no crash; non-trivial (part 2) = at least one preemption",
-        "assumptions": ["SourceControl built as RunRPCServer does, minus network; the source is attached the way SourceControl.Start does after choosing it by name",
+        "assumptions": ["hw/abaco scenario: the real AbacoSource with a scripted packet producer and a clock thread for the reader's ticker (a seam); delay-bounded",
+                        "SourceControl built as RunRPCServer does, minus network; the source is attached the way SourceControl.Start does after choosing it by name",
                         "the fire-and-forget mode of SetExperimentStateLabel is excluded (statement)",
                         "StoreRawDataBlock with N <= 0: the statement does not say whether that is an error; only 'no crash, no hang' is required",
                         "I/O faults produced with a directory or regular file in the way (the sandbox runs as root)"],
